@@ -202,6 +202,15 @@ pub(crate) fn serialize_cdata<'a, N: Normalizer>(
                     closing_square_brackets_seen = 2;
                 }
             }
+            '\r' => {
+                // a literal CR would be normalized to LF when parsed back; leave
+                // the section to write it as a character reference
+                for _ in 0..closing_square_brackets_seen {
+                    result.push(']');
+                }
+                closing_square_brackets_seen = 0;
+                result.push_str("]]>&#xD;<![CDATA[");
+            }
             '>' => {
                 if closing_square_brackets_seen == 2 {
                     // we are the sequence
